@@ -63,6 +63,7 @@ PROPS = {
         "level": "exploration",
         "jobs": [
             {"fuzz": "FuzzDatagram", "pkg": "./fuzz", "fuzztime": {"quick": 0, "thorough": 60}},
+            {"fuzz": "FuzzHTTP", "pkg": "./fuzz", "fuzztime": {"quick": 0, "thorough": 60}},
             {"run": "^TestC12Inputs", "checks": {"quick": 4, "thorough": 120}, "shards": {"quick": 3, "thorough": 16}, "shrink_s": 45,
              "cover_pkg": "github.com/glowlabs-org/gca-backend/server", "cover_tiers": ["thorough"]},
             {"run": "^TestC12CatchUpTraffic", "checks": {"quick": 150, "thorough": 3000}, "shards": {"quick": 1, "thorough": 4}},
